@@ -73,4 +73,34 @@ def runShell (_fe : FrontEnd) (fuel : Nat) (fs : List Cmd) (exitTrap : Option Cm
       | none => none
       | some (t', _) => some { trace := t'.st.trace, status := t'.st.last }
 
+/-! ## A subshell that registers its own EXIT trap: `( trap h EXIT; c )`, `v=$(trap h EXIT; c)`,
+`… | { trap h EXIT; c; }` -/
+
+/-- As brush runs it (interp.rs `CompoundCommand::Subshell`, commands.rs
+`invoke_command_in_subshell_and_get_output`, the pipeline-stage clone): the body runs on a clone of the
+shell and the clone is dropped — no `on_exit` for it.  The registration `_h` has no observable effect.
+(Recorded finding; the repository's own tests mark "subshell can set its own EXIT trap" as a known
+failure, which pins the behaviour.) -/
+def subshellOwnTrap (fuel : Nat) (fs : List Cmd) (sup : Bool) (_h : Option Cmd) (c : Cmd) (s : St) :
+    Option (St × Res) :=
+  exec fuel fs sup (.subshell c) s
+
+/-- What the property demands (and bash does): the subshell is a shell of its own; however its body
+ends, its EXIT handler runs once, last, with `$?` = the terminating status, and the subshell's status
+is that status unless the handler itself exits.  Only the output and the status come back. -/
+def subshellOwnTrapSpec : Nat → List Cmd → Bool → Option Cmd → Cmd → St → Option (St × Res)
+  | 0, _, _, _, _, _ => none
+  | fuel + 1, fs, sup, h, c, s =>
+    match exec fuel fs sup c s with
+    | none => none
+    | some (s1, r1) =>
+      match h with
+      | none => some (post sup { s with trace := s1.trace } { code := r1.code, flow := .normal })
+      | some hc =>
+        match exec fuel fs false hc { s1 with last := r1.code } with
+        | none => none
+        | some (s2, rh) =>
+          some (post sup { s with trace := s2.trace }
+            { code := if rh.flow = .exit then rh.code else r1.code, flow := .normal })
+
 end BrushVerif.Traps
